@@ -54,6 +54,17 @@
    leave an earlier definition of the name as it was; defclass makes an
    object.
 
+   Round 5.  (a) C10: the world changes between two commands (the module
+   files fs are changed by the host's commands appear / vanish / edit, a
+   program appends a directory to its own module path: cal.xp), deviation
+   RemembersMissing, property MissingOnlyIfAbsent.  (b) C10: interpreters that
+   differ below the session (Insecure, cal.rb: the base-level function is_list
+   reassigned) and the bundled modules list / io, whose instance hangs under
+   the base environment of ITS interpreter (lfirst, ioread); doc strings
+   (docdef / infonull).  (c) C11: importers that run in a caller-supplied
+   environment (command envreq: the require sub-step machine with the
+   caller's environment as importer scope).
+
    No history variables: what a command returned is carried by the exported
    EDGE record, the repeat-check needs only the short-lived control states
    "failed"/"rerun"/"done" that collapse back into the idle state (Settle). *)
@@ -115,7 +126,9 @@ Fail(kind, arg) == [cls |-> "fail",  kind |-> kind,  arg |-> arg, v |-> 0]
 \* interpreters with a module directory of their own, and what it holds
 AltFS    == [i \in {} |-> FS10B]
 AltFS10  == ("i2" :> FS10B)
-FSI(i)   == IF i \in DOMAIN AltFS THEN AltFS[i] @@ BundledFS ELSE fs
+FSI(i)   == IF i \in DOMAIN AltFS THEN AltFS[i] @@ BundledFS
+            ELSE IF i \in cal.xp THEN fs @@ ExtraDir (* round 5: the appended directory is searched last *)
+            ELSE fs
 
 \* interpreters that are constructed by a command of the history
 LateBorn == {}
@@ -130,6 +143,37 @@ UnwindsLang(err) == err.cls \in {"err", "syntax"}
 \* caller environments of the chain outer <- inner <- leaf
 NestIds == {"nested", "deep", "outer"}
 (* ---- Round 3 (C10) end ---------------------------------------------------- *)
+
+(* ---- Round 5 (C10 / C11) begin: parameters (definitions, as in round 3) -------
+   The world (SessionOps, block "Round 5"): the files of the module directory
+   are the variable fs, which the commands appear / vanish / edit change (they
+   are commands of the HOST, issued between two interpret calls; the field i
+   only says in whose alphabet they stand); cal.xp = the interpreters whose
+   program appended ExtraDir to the module path (FSI below: the first
+   directory is searched first).  Deviation RemembersMissing (default FALSE;
+   TRUE: the loader keeps the names it did not find, cal.miss, and does not
+   search for them again): a configuration that sets it must violate
+   MissingOnlyIfAbsent.
+   Interpreters differ BELOW the session: Insecure = the interpreters that are
+   not in secure mode; cal.rb = the interpreters whose program reassigned the
+   base-level function is_list.  Start-up code has loaded sys (Preloaded); in
+   configurations that follow the bundled module io it is named as well (Pre5).
+   C11 under a caller-supplied environment: the command envreq runs
+       require m [; m->m_bump() | ; m->m_top + m->m_sees()]
+   through interpret(script, name, environment) in an environment of the CALLER
+   that holds the caller's own `secret` (v: 0 = a fresh one, 1 = the one the
+   caller keeps, 2 = the leaf of the caller's chain).  The require binds in the
+   caller's environment, not in the session; the module it loads is THE module
+   of the interpreter: same cache (LoadOnce), same instance (SingleInstance:
+   the counter moves for every importer), scope under the interpreter's base
+   (ModuleScopeIsBase: the probes see neither the session nor the caller).   *)
+Insecure == {}
+Insec1   == {"i1"}
+Pre5     == {"sys", "io"}
+RemembersMissing == FALSE
+RemembersTrue    == TRUE
+WorldOps == {"appear", "vanish", "edit"}
+(* ---- Round 5 end ------------------------------------------------------------ *)
 
 \* interpret with a caller environment (id = which one):
 \*   envcall  def ev = 4; x           a definition in the caller's scope, then a
@@ -201,6 +245,29 @@ C10Fails(i) ==
            m \in {"good", "missing", "undec", "isdir", "deeprec", "wrapu", "spin", "wraps"} }
 C10FailsWide(i) == C10Fails(i) \cup { Cmd("require", i, "", 0, "wrapd", "plain") }
 (* ---- Round 3 (C10) end ---------------------------------------------------- *)
+
+(* ---- Round 5 (C10) begin: alphabets -------------------------------------------
+   C10World  the world changes between the calls of i1 (appear / vanish / edit,
+             addpath: append(checkerlang_module_path, 'extra'); 1); i2 stands by
+             with the same first directory and a module path of its own
+   C10Base   i1 (Insec1: not in secure mode) and i2 differ below the session:
+             require List / IO, lfirst  List->first([1, 2, 3]),
+             rebase  is_list = fn(obj) FALSE,  ioread  IO->read_file(<a module file>),
+             docdef  "doc of dn" def dn = NULL  (i1),  infonull  info(NULL)  (i2) *)
+C10World(i) ==
+  IF i = "i1"
+  THEN { Cmd("appear", i, "", 0, "late", ""), Cmd("vanish", i, "", 0, "late", ""),
+         Cmd("edit", i, "", 0, "flaky", ""),  Cmd("addpath", i, "", 1, "", "") }
+       \cup { Cmd("require", i, "", 0, m, "plain") : m \in {"late", "flaky", "solo"} }
+  ELSE { Cmd("addpath", i, "", 1, "", ""), Cmd("require", i, "", 0, "solo", "plain") }
+C10Base(i) ==
+  { Cmd("require", i, "", 0, "List", "plain"), Cmd("lfirst", i, "List", 0, "", ""),
+    Cmd("rebase", i, "is_list", 0, "", "") }
+  \cup (IF i = "i1" THEN { Cmd("docdef", i, "dn", 0, "", "") }
+        ELSE { Cmd("require", i, "", 0, "IO", "plain"), Cmd("ioread", i, "IO", 0, "", ""),
+               Cmd("infonull", i, "", 0, "", ""), Cmd("require", i, "", 0, "missing", "plain") })
+C10BaseWide(i) == C10Base(i) \cup { Cmd("require", i, "", 0, "IO", "plain"), Cmd("ioread", i, "IO", 0, "", "") }
+(* ---- Round 5 (C10) end ------------------------------------------------------ *)
 
 C11Cmds(i) ==
   { Cmd("require", i, "", 0, m, IForms[f]) : m \in ModIds, f \in DOMAIN IForms }
@@ -281,6 +348,18 @@ C11Spell4(i) == C11Spell3(i) \cup C11Mem(i, {ModSeq[1]})
 C11Two4(i)   == C11Two(i)    \cup C11Mem(i, ModIds)
 (* ---- Round 4 (C11) end ---------------------------------------------------- *)
 
+(* ---- Round 5 (C11) begin: importers that run in a caller-supplied environment --
+   (see the parameter block of round 5)  n = the tail of the script ("" / bump /
+   probe), v = which environment of the caller, id = the module.             *)
+EnvTails == {"", "bump", "probe"}
+C11Env(i) ==
+  { Cmd("require", i, "", 0, m, f) : m \in ModIds, f \in {"plain", "unq"} }
+  \cup { Cmd("bump", i, n, 1, "", "") : n \in UNION {{m, NBump(m)} : m \in ModIds} }
+  \cup { Cmd("envreq", i, t, v, m, "plain") : t \in EnvTails, v \in {0, 2}, m \in ModIds }
+C11EnvWide(i) ==
+  C11Env(i) \cup { Cmd("envreq", i, t, 1, m, "plain") : t \in EnvTails, m \in ModIds }
+(* ---- Round 5 (C11) end ------------------------------------------------------ *)
+
 Cmds == UNION {CmdsOf(i) : i \in Interps}
 
 \* sp = the module name as spelled in the require statement (round 3 (C11):
@@ -293,13 +372,22 @@ Idle == [ph |-> "idle", cmd |-> NoCmd, start |-> << >>, act |-> << >>,
 
 VStr(x) == x.k \o ":" \o x.id \o ":" \o x.n \o ":" \o ToString(x.v)
 
+\* round 5: the part of the world (and of the base environments) that is not as
+\* it was at the start, as a set of tags
+FlakyVer == IF "flaky" \in DOMAIN fs THEN CHOOSE k \in 0..2 : fs["flaky"] = FlakyV(k) ELSE 0
+WorldKey == (IF "late" \in DOMAIN fs THEN {"late"} ELSE {})
+            \cup (IF FlakyVer # 0 THEN {"flaky" \o ToString(FlakyVer)} ELSE {})
+            \cup {"path:" \o i : i \in cal.xp} \cup {"is_list:" \o i : i \in cal.rb}
+            \cup UNION {{"miss:" \o i \o ":" \o m : m \in cal.miss[i]} : i \in Interps}
+
 \* the idle-state key exported with edges (everything that determines the
 \* future: scopes, loaded modules with their counters, stack, load counters)
 Key == [s |-> [i \in Interps |-> [n \in DOMAIN sess[i] |-> VStr(sess[i][n])]],
         m |-> [i \in Interps |-> [id \in DOMAIN mods[i] |-> mods[i][id].ctr]],
         k |-> mstack, l |-> loads, g |-> gen, n |-> nreq, e |-> cal.ev,
         ne |-> cal.nev (* round 3 *),
-        mv |-> [i \in Interps |-> ModSnaps(i)] (* round 4 (C11) *)]
+        mv |-> [i \in Interps |-> ModSnaps(i)] (* round 4 (C11) *),
+        w |-> WorldKey (* round 5: empty at the start *)]
 
 \* what a failed call may not change when it is repeated (load counters are
 \* the harness's instrumentation, not interpreter state)
@@ -334,7 +422,8 @@ Finish(e, c, out, startKey, re) ==
 NoInterp == ""
 NI == Cardinality(Interps)
 CalInit == [ev |-> FALSE, par |-> NoInterp, bpar |-> [i \in Interps |-> NoInterp],
-            nev |-> FALSE, npar |-> NoInterp (* round 3: the chain outer <- inner <- leaf *)]
+            nev |-> FALSE, npar |-> NoInterp (* round 3: the chain outer <- inner <- leaf *),
+            xp |-> {}, rb |-> {}, miss |-> [i \in Interps |-> {}] (* round 5 *)]
 
 RECURSIVE BaseChainF(_, _, _), RootOfF(_, _, _), VisOf(_)
 \* the sessions above the base of i; fuel bounds a walk that never ends
@@ -438,6 +527,30 @@ MSetOk(c) ==
 (* ---- Round 4 (C11) end ---------------------------------------------------- *)
 AtomicOps == {"def", "assign", "read", "deffn", "call", "failexpr", "syntax", "loop", "bump"} \cup EnvOps
              \cup FailDefOps \cup {"defclass", "new"} \cup {"mset" (* round 4 (C11) *)}
+             \cup WorldOps \cup {"addpath", "lfirst", "rebase", "ioread", "docdef", "infonull"}   \* round 5
+
+(* ---- Round 5 (C10) begin: when a command of the world is taken, what it does --
+   A file is removed / edited only while no interpreter has loaded it (what the
+   statement says about a module that HAS been loaded is "once": the cached
+   instance stays whatever happens to the file; not followed here).          *)
+Loaded(m) == \E i \in Interps : m \in DOMAIN mods[i]
+WorldOk(c) ==
+  CASE c.op = "appear"  -> "late" \notin DOMAIN fs
+    [] c.op = "vanish"  -> "late" \in DOMAIN fs /\ ~Loaded("late")
+    [] c.op = "edit"    -> "flaky" \in DOMAIN fs /\ ~Loaded("flaky")
+    [] c.op = "addpath" -> c.i \notin cal.xp
+    [] OTHER            -> TRUE
+NewFS(c) ==
+  CASE c.op = "appear" -> FSLate @@ fs
+    [] c.op = "vanish" -> [m \in DOMAIN fs \ {"late"} |-> fs[m]]
+    [] c.op = "edit"   -> [fs EXCEPT !["flaky"] = FlakyV((FlakyVer + 1) % 3)]
+    [] OTHER           -> fs
+NewCal(c) ==
+  CASE c.op \in EnvOps  -> CalNext(c)
+    [] c.op = "addpath" -> [cal EXCEPT !.xp = @ \cup {c.i}]
+    [] c.op = "rebase"  -> [cal EXCEPT !.rb = @ \cup {c.i}]
+    [] OTHER            -> cal
+(* ---- Round 5 (C10) end ------------------------------------------------------ *)
 
 NewScope(c) ==
   CASE c.op = "def"      -> (c.n :> IntV(c.v)) @@ S(c)
@@ -455,6 +568,7 @@ NewScope(c) ==
                             @@ ((c.n \o "_get") :> FnV(c.n \o "_get")) @@ S(c)
     [] c.op = "new"      -> ("secret" :> IntV(1))
     [] c.op = "mset"     -> (c.n :> [S(c)[c.n] EXCEPT !.v = c.v]) @@ S(c)   \* round 4 (C11): n->d_cnt = 5
+    [] c.op = "docdef"   -> (c.n :> NullV) @@ S(c)                         \* round 5: "doc of dn" def dn = NULL
     [] OTHER             -> S(c)
 
 Outcome(c) ==
@@ -477,6 +591,19 @@ Outcome(c) ==
     [] c.op = "defclass" -> Val("obj", c.v)
     [] c.op = "new"      -> Val("int", 1)           \* (the set-up call def secret = 1)
     [] c.op = "mset"     -> Val("mod", 0)           \* round 4 (C11): a member assignment yields the object
+    \* round 5: the host changes the module directory (no interpret call: 0 by convention);
+    \* append(checkerlang_module_path, 'extra'); 1
+    [] c.op \in WorldOps -> Val("int", 0)
+    [] c.op = "addpath"  -> Val("int", 1)
+    \* round 5: List->first([1, 2, 3]) asks is_list of the base environment of ITS interpreter;
+    \* IO->read_file(..) exists where the interpreter is not in secure mode; the doc
+    \* string of another interpreter's definition is nowhere to be seen
+    [] c.op \in {"lfirst", "ioread"} /\ ~Has(c, c.n) -> Err("undef", c.n)
+    [] c.op = "lfirst"   -> IF c.i \in cal.rb THEN Err("notlist", "list") ELSE Val("int", 1)
+    [] c.op = "ioread"   -> IF c.i \in Insecure THEN Val("str", 1) ELSE Err("nomember", "read_file")
+    [] c.op = "rebase"   -> Val("fn", 0)
+    [] c.op = "docdef"   -> Val("null", 0)
+    [] c.op = "infonull" -> Val("str", 0)
     [] OTHER (* bump *)  -> IF ~Has(c, c.n) THEN Err("undef", c.n)
                             ELSE Val("int", mods[c.i][BumpTarget(c)].ctr + 1)
 
@@ -487,11 +614,13 @@ Atomic(c, e) ==
   /\ c.op = "bump" => /\ (Has(c, c.n) \/ c.v = 0)
                       /\ Has(c, c.n) => (BumpOk(c) /\ mods[c.i][BumpTarget(c)].ctr < MaxCtr)
   /\ c.op = "mset" => MSetOk(c)                   \* round 4 (C11)
+  /\ WorldOk(c)                                   \* round 5
   /\ sess' = [sess EXCEPT ![c.i] = NewScope(c)]
   /\ mods' = IF c.op = "bump" /\ Has(c, c.n)
              THEN [mods EXCEPT ![c.i][BumpTarget(c)].ctr = @ + 1] ELSE mods
-  /\ cal' = IF c.op \in EnvOps THEN CalNext(c) ELSE cal
-  /\ UNCHANGED <<mstack, loads, gen, fs>>
+  /\ cal' = NewCal(c)                             \* round 5 (was: CalNext for the EnvOps, else unchanged)
+  /\ fs' = NewFS(c)                               \* round 5
+  /\ UNCHANGED <<mstack, loads, gen>>
   /\ Count
   /\ Finish(e, c, Outcome(c), Key, ctl.ph = "failed")
 
@@ -502,12 +631,15 @@ Depth == Len(ctl.act)
 Top == ctl.act[Depth]
 SetTop(a) == [ctl EXCEPT !.act[Depth] = a]
 Stepping(ph) == Running /\ ctl.err.cls = "" /\ Depth > 0 /\ Top.ph = ph
-ImporterScope == IF Depth = 1 THEN sess[I] ELSE ctl.act[Depth - 1].env
+CallerScope == ("secret" :> IntV(1))         \* round 5 (C11): what an environment of the caller holds
+ImporterScope == IF Depth = 1 THEN (IF ctl.cmd.op = "envreq" THEN CallerScope ELSE sess[I])
+                 ELSE ctl.act[Depth - 1].env
 
 ReqStart(c) ==
-  /\ c.op = "require"
+  /\ c.op \in {"require", "envreq" (* round 5 (C11) *)}
   /\ CanStart(c)
   /\ Born(c.i)                                    \* round 3
+  /\ (c.op = "envreq" /\ c.n = "bump" /\ c.id \in DOMAIN mods[c.i]) => mods[c.i][c.id].ctr < MaxCtr   \* round 5
   /\ ctl' = [Idle EXCEPT !.ph = IF ctl.ph = "failed" THEN "rerun" ELSE "run",
                          !.cmd = c, !.start = Key, !.act = <<Act(c.id, c.form)>>,
                          !.first = ctl.first, !.snap = ctl.snap]
@@ -525,15 +657,20 @@ ReqPush ==
   /\ UNCHANGED <<sess, mods, loads, gen, nreq, fs, cal>>
 
 \* cache hit / find the file / parse it
+\* (round 5: Absent - no file of that name on the module path NOW; the
+\* deviation RemembersMissing also takes the word of an earlier search)
+Absent(i, m) == m \notin DOMAIN FSI(i) \/ (RemembersMissing /\ m \in cal.miss[i])
 ReqLookup ==
   /\ Stepping("lookup")
+  /\ cal' = IF RemembersMissing /\ Top.id \notin DOMAIN mods[I] /\ Absent(I, Top.id)
+            THEN [cal EXCEPT !.miss[I] = @ \cup {Top.id}] ELSE cal
   /\ ctl' = IF Top.id \in DOMAIN mods[I] THEN SetTop([Top EXCEPT !.ph = "pop"])
-            ELSE IF Top.id \notin DOMAIN FSI(I) THEN [ctl EXCEPT !.err = Err("notfound", Top.id)]
+            ELSE IF Absent(I, Top.id) THEN [ctl EXCEPT !.err = Err("notfound", Top.id)]
             ELSE IF Top.id \in DOMAIN Unreadable        \* round 3: the host cannot read it
                  THEN [ctl EXCEPT !.err = Fail("unreadable", Top.id)]
             ELSE IF FSI(I)[Top.id].syn THEN [ctl EXCEPT !.err = SynErr]
             ELSE SetTop([Top EXCEPT !.ph = "load", !.pc = 0, !.env = NoBind])
-  /\ UNCHANGED <<sess, mods, mstack, loads, gen, nreq, fs, cal>>
+  /\ UNCHANGED <<sess, mods, mstack, loads, gen, nreq, fs>>
 
 Target(env, st) == env[BindName(st.form, st.id)].id
 
@@ -613,7 +750,16 @@ Bindings(form, d, nm, mv) ==
 ReqBind(e) ==
   /\ Stepping("bind")
   /\ LET b == Bindings(Top.form, Top.id, Top.nm, NowVars(I, Top.id) (* round 4 (C11): was mods[I][Top.id].vars *)) IN
-     IF Depth = 1
+     IF Depth = 1 /\ ctl.cmd.op = "envreq"
+     THEN \* round 5 (C11): the importer is a script in an environment of the caller - the names are
+          \* bound THERE (the session gains nothing); the tail of the script uses the module object
+          /\ mods' = IF ctl.cmd.n = "bump" THEN [mods EXCEPT ![I][Top.id].ctr = @ + 1] ELSE mods
+          /\ UNCHANGED <<sess, mstack, loads, gen, nreq, fs, cal>>
+          /\ Finish(e, ctl.cmd, CASE ctl.cmd.n = "bump"  -> Val("int", mods[I][Top.id].ctr + 1)
+                                  [] ctl.cmd.n = "probe" -> Val("int", 2 * Probe(CallerScope))
+                                  [] OTHER               -> Val("null", 0),
+                    ctl.start, ctl.ph = "rerun")
+     ELSE IF Depth = 1
      THEN /\ sess' = [sess EXCEPT ![I] = Rebind(b, @) (* round 3 (C11): b @@ @, the new bindings win *)]
           /\ UNCHANGED <<mods, mstack, loads, gen, nreq, fs, cal>>
           /\ Finish(e, ctl.cmd, Val("null", 0), ctl.start, ctl.ph = "rerun")
@@ -674,12 +820,18 @@ GenDone(e) ==
   /\ Emit(e, "FSDEF", FsRec(fs'))
 
 ASSUME Mode = "c10" => Emit(TRUE, "FSDEF", [g |-> << >>,
-          fs |-> [m \in DOMAIN C10Files |-> [syn |-> C10Files[m].syn, body |-> C10Files[m].body]]])
+          fs |-> [m \in DOMAIN C10Files5 |-> [syn |-> C10Files5[m].syn, body |-> C10Files5[m].body]]])
 \* round 3: which files cannot be read (and how), and the directories of the
 \* interpreters that have one of their own
 ASSUME Mode = "c10" => Emit(TRUE, "FSRAW", [raw |-> Unreadable,
           alt |-> [i \in DOMAIN AltFS |-> [m \in DOMAIN AltFS[i] |->
-                     [syn |-> AltFS[i][m].syn, body |-> AltFS[i][m].body]]]])
+                     [syn |-> AltFS[i][m].syn, body |-> AltFS[i][m].body]]],
+          \* round 5: the files the world commands put in place, the appended directory,
+          \* the interpreters that are not in secure mode
+          world |-> [late |-> [syn |-> FSLate["late"].syn, body |-> FSLate["late"].body],
+                     flaky |-> [k \in 1..3 |-> [syn |-> FlakyV(k - 1).syn, body |-> FlakyV(k - 1).body]],
+                     extra |-> [m \in DOMAIN ExtraDir |-> [syn |-> ExtraDir[m].syn, body |-> ExtraDir[m].body]]],
+          insec |-> [i \in Insecure |-> TRUE]])
 \* round 3 (C11): the same for the generated file systems (every FSDEF of the
 \* run goes with these directories of single interpreters)
 ASSUME Mode = "c11" => Emit(TRUE, "FSALT", [alt |-> [i \in DOMAIN AltFS |-> [m \in DOMAIN AltFS[i] |->
@@ -688,13 +840,13 @@ ASSUME Mode = "c11" => Emit(TRUE, "FSALT", [alt |-> [i \in DOMAIN AltFS |-> [m \
 -----------------------------------------------------------------------------
 Init ==
   /\ sess   = [i \in Interps |-> IF i \in LateBorn THEN NoBind (* round 3 *) ELSE ("secret" :> IntV(1))]
-  /\ mods   = [i \in Interps |-> [x \in Preloaded |-> [vars |-> NoBind, ctr |-> 0]]]
+  /\ mods   = [i \in Interps |-> [x \in Preloaded |-> [vars |-> NoBind, ctr |-> 0]]]   \* (round 5: a cfg may name Pre5)
   /\ mstack = [i \in Interps |-> << >>]
   /\ loads  = [i \in Interps |-> [x \in Preloaded |-> 1]]
   /\ ctl    = IF Mode = "c10" THEN Idle ELSE [Idle EXCEPT !.ph = "gen"]
   /\ gen    = << >>
   /\ nreq   = 0
-  /\ fs     = (IF Mode = "c10" THEN C10Files ELSE FSOf(<< >>, ModIds)) @@ BundledFS
+  /\ fs     = (IF Mode = "c10" THEN C10Files5 (* round 5 *) ELSE FSOf(<< >>, ModIds)) @@ BundledFS
   /\ cal    = CalInit
 
 NextE(e) ==
@@ -735,6 +887,7 @@ Render(i, x) ==
     [] x.k = "fn"  -> [k |-> "fn",  r |-> 0]
     [] x.k = "sym" -> RenderSym(i, x)
     [] x.k = "obj" -> [k |-> "obj", r |-> x.v]         \* round 3
+    [] x.k = "null" -> [k |-> "null", r |-> 0]         \* round 5
     [] OTHER       -> [k |-> "mod", r |-> 0]
 NoMem == [x \in {} |-> [k |-> "", r |-> 0]]
 Obs(i) ==
@@ -785,7 +938,8 @@ FailLeavesNoResidue == ctl.ph = "done" => ctl.snap = Snap
 \* C10: names never disappear; a binding changes only by a command that defines
 \* or assigns that very name (or binds it through require)
 Rebinder(j, n) ==
-  \/ \E c \in CmdsOf(j) : /\ c.op \in {"def", "assign", "deffn", "failexpr", "loop", "defclass", "mset" (* round 4 (C11) *)}
+  \/ \E c \in CmdsOf(j) : /\ c.op \in {"def", "assign", "deffn", "failexpr", "loop", "defclass", "mset" (* round 4 (C11) *),
+                                      "docdef" (* round 5 *)}
                           /\ (c.n = n \/ (c.op = "loop" /\ n = "i")
                                       \/ (c.op = "defclass" /\ n \in {c.n \o "_m", c.n \o "_get"}))
                           /\ Atomic(c, FALSE)
@@ -812,7 +966,9 @@ LoadOnlyInLoadStep == [][loads' # loads => (Stepping("load") /\ Top.pc = 0)]_var
 \* C11: a bind step adds exactly the names the form denotes, with the values
 \* of the module's symbols, never a private name
 BindsExactlyAct ==
-  Stepping("bind") =>
+  \* (round 5 (C11): the outermost bind step of envreq binds in the caller's environment,
+  \* which is not part of the state: what it gets shows in the value of the script)
+  (Stepping("bind") /\ ~(Depth = 1 /\ ctl.cmd.op = "envreq")) =>
     LET d == Top.id
         f == Top.form
         mv == NowVars(I, d)      \* round 4 (C11): the definitions as they are now (was mods[I][d].vars)
@@ -858,6 +1014,17 @@ OwnDirectory11 ==
           (/\ mods[i][m].vars[n].k = "sym" /\ mods[i][m].vars[n].id = m
            /\ n \notin DOMAIN StdEnv(m, NoBind) /\ n \notin ValNames(m))
              => \E k \in DOMAIN FSI(i)[m].body : FSI(i)[m].body[k].n = n
+
+\* round 5 (C10): a module is reported missing only when no file of that name is
+\* on the module path of the interpreter NOW - whatever an earlier call found
+MissingOnlyIfAbsent ==
+  [][(Stepping("lookup") /\ ctl'.err = Err("notfound", Top.id)) => Top.id \notin DOMAIN FSI(I)]_vars
+\* round 5 (C10): a command of the world touches no interpreter, a program that
+\* changes its base environment or module path changes its own
+WorldTouchesNoInterpreter ==
+  [][\A c \in Cmds : (c.op \in WorldOps /\ Atomic(c, FALSE)) => (sess' = sess /\ mods' = mods /\ cal' = cal)]_vars
+BaseIsOwn ==
+  [][\A j \in Interps : ((j \in cal'.rb) # (j \in cal.rb) \/ (j \in cal'.xp) # (j \in cal.xp)) => Actor(j)]_vars
 
 \* C11: every module value refers to the one cached instance
 Refs(sc) == {sc[n].id : n \in {x \in DOMAIN sc : sc[x].k \in {"mod", "sym"}}}
